@@ -39,7 +39,7 @@ API_COVERAGE = [
 ]
 
 IMPORTS = ('From Coq Require Import List ZArith Bool Arith.\n'
-           'Require Import Base.C05_Np Model.C05_BC Model.C05_MPC Model.C05_Ext Gen.C05Gen.')
+           'Require Import Base.C05_Np Model.C05_BC Model.C05_MPC Model.C05_Ext Model.C05_Solve Gen.C05Gen.')
 
 DEFS = r'''
 Definition mk (ip : list Z) (ix : list nat) (d : list Z) : csr Z := {| indptr := ip; indices := ix; data := d |}.
@@ -106,6 +106,17 @@ Definition run_penalize_g (c : list Z * list nat * list Z * list Z * list G * op
   let '(ip, ix, d, b, x, Is, Ds, w) := c in
   option_map (fun r => (canong (fst r), snd r)) (penalize_call Gops (csr_rows (mkg ip ix d)) (Some (re b)) (Some x) (fl Is) (fl Ds) (w, 0%Z)).
 Definition eq_g := option_eqb (pair_eqb (list_eqb (list_eqb gentry_eqb)) (option_eqb (list_eqb g_eqb))).
+(* the dispatch wrapper solve with stub solvers: kind 0 = vector rhs, 1 = sparse rhs, 2 = anything else *)
+Definition run_solve (c : nat * option (list Z) * option (list nat) * list Z * list (list Z)) : option (list Z * list (list Z)) :=
+  let '(kind, x, Ia, z, X) := c in
+  let b : @rhs Z := match kind with 0%nat => RVec [] | 1%nat => RMat [] | _ => ROther end in
+  match gen_solve Zops (fun _ _ => z) (fun _ _ => ([], X)) [] b x (option_map IArr Ia) with
+  | Some (SVec y) => Some (y, [])
+  | Some (SEig _ Y) => Some ([], Y)
+  | None => None
+  end.
+Definition eq_solve := option_eqb (pair_eqb zs_eqb zss_eqb).
+Definition RaisesSolve : option (list Z * list (list Z)) := None.
 Definition eq_mo := pair_eqb rows_eqb ozs_eqb.
 Definition eq_mm := pair_eqb rows_eqb rows_eqb.
 Definition eq_cond := pair_eqb (pair_eqb (pair_eqb rows_eqb ozs_eqb) zs_eqb) nats_eqb.
@@ -315,8 +326,9 @@ def run(ctx):
     # 3. correspondence + 4. oracle share the generated cases
     state = {'maxdisc': 0.0, 'pen_maxdisc': 0.0, 'eig_maxdisc': 0.0}
     cases = {k: [] for k in ('enforce', 'enforce_eig', 'condense', 'condense_eig', 'penalize', 'expand', 'expand_eig',
-                             'positions', 'mpc', 'tuple', 'enforce_g', 'penalize_g')}
+                             'positions', 'mpc', 'tuple', 'enforce_g', 'penalize_g', 'solve')}
     _gen_random(ctx, cases, state)
+    _solve_dispatch_cases(ctx, cases)
     _gen_basis(ctx, cases, state)
     _oracle_mpc(ctx, state, cases)
     ctx.extra['max_float_discrepancy'] = {'solve_vs_exact(rel)': state['maxdisc'], 'tolerance': 1e-9,
@@ -338,7 +350,7 @@ def run(ctx):
                 ('expand_eig', 'run_expand_eig', 'zss_eqb'),
                 ('positions', 'run_positions', '(option_eqb zs_eqb)'),
                 ('mpc', 'run_mpc', 'eq_mpc'), ('tuple', 'run_tuple', 'zs_eqb'),
-                ('enforce_g', 'run_enforce_g', 'eq_g'), ('penalize_g', 'run_penalize_g', 'eq_g')]
+                ('enforce_g', 'run_enforce_g', 'eq_g'), ('penalize_g', 'run_penalize_g', 'eq_g'), ('solve', 'run_solve', 'eq_solve')]
         # the files of the different functions are independent: evaluate them concurrently
         from concurrent.futures import ThreadPoolExecutor
         with ThreadPoolExecutor(4) as ex:
@@ -1026,6 +1038,9 @@ def check_solver_factories(ctx, state, n, rng):
             H = nprng.integers(-1, 2, size=(n, n)).astype(float)
             M = sp.csr_matrix(H @ H.T + n * np.eye(n))
             L, Y = solve(*condense(A, M, D=Darr), solver=solver_eigen_scipy_sym())
+            if np.asarray(Y).shape[0] != n:
+                ctx.fail('solve_eigen:not-expanded', f'solve(*condense(A, M, D=D)) returns eigenvectors of length {np.asarray(Y).shape[0]}, not {n}', rep)
+                return
             res = 0.0
             for j in range(len(L)):
                 r = (A @ Y[:, j] - L[j] * (M @ Y[:, j]))[I]
@@ -1096,6 +1111,10 @@ def check_eigen_pipeline(ctx, state, n, rng):
         w, V = la.eigh(Ac.toarray(), Mc.toarray())
         return w, V
     L, Y = solve(*condense(A, M, D=Darr), solver=dense_solver)
+    if np.asarray(Y).shape[0] != n:
+        ctx.fail('solve_eigen:not-expanded', f'solve(*condense(A, M, D=D)) returns eigenvectors of length {np.asarray(Y).shape[0]}, not {n}',
+                 {'n': n, 'D': D})
+        return
     I = [i for i in range(n) if i not in D]
     res = 0.0
     for j in range(len(L)):
@@ -1390,13 +1409,50 @@ def _oracle_mpc(ctx, state, cases=None):
     state['mpc_maxdisc'] = worst
 
 
+def _solve_dispatch_cases(ctx, cases):
+    """the real skfem.utils.solve with stub solvers on generated argument records (vector / sparse / other second argument,
+    x and I present or absent in every combination) vs the regenerated gen_solve"""
+    from skfem.utils import solve
+    rng = ctx.rng
+    for it in range(ctx.n(60, 300)):
+        n = rng.randint(1, 6)
+        kind = rng.choice([0, 0, 1, 1, 2])
+        x = [rng.randint(-9, 9) for _ in range(n)] if rng.random() < 0.7 else None
+        I = rng.sample(range(n), rng.randint(0, n)) if rng.random() < 0.7 else None
+        m = len(I) if (x is not None and I is not None) else rng.randint(0, 4)
+        z = [rng.randint(-9, 9) for _ in range(m)]
+        X = [[rng.randint(-9, 9) for _ in range(m)] for _ in range(rng.randint(0, 3))]       # eigenvectors (columns of the solver's X)
+        A = sp.csr_matrix(np.eye(max(n, 1)))
+        b = {0: np.zeros(n), 1: sp.csr_matrix(np.eye(max(n, 1))), 2: [0.0] * n}[kind]
+        xx = None if x is None else np.array(x, dtype=float)
+        Ia = None if I is None else np.array(I, dtype=np.int64)
+        Xm = np.array(X, dtype=float).reshape(len(X), m).T if X else np.zeros((m, 0))
+        solver = (lambda A_, b_, **kw: np.array(z, dtype=float)) if kind != 1 else (lambda A_, M_, **kw: (np.zeros(len(X)), Xm))
+        rep = {'fn': 'solve dispatch', 'kind': ['vector', 'sparse', 'other'][kind], 'x': x, 'I': I, 'z': z, 'X': X, 'nontrivial': x is not None and I is not None}
+        ctx.count(('solve_dispatch', kind, x, I, z, X), nontrivial=rep['nontrivial'])
+        try:
+            out = solve(A, b, xx, Ia, solver=solver)
+        except NotImplementedError:
+            out = None
+        if out is None:
+            got = 'RaisesSolve'
+            if kind != 2:
+                ctx.fail('solve:dispatch-raises', 'solve raises NotImplementedError for a vector / sparse second argument', rep)
+        elif kind == 1:
+            Y = out[1]
+            got = f'(Some ([], {clist([cints(ints(Y[:, k])) for k in range(Y.shape[1])])}))'
+        else:
+            got = f'(Some ({cints(ints(out))}, []))'
+        cases['solve'].append((tup(cnat(kind), c_ozs(x), c_onats(I), cints(z), clist([cints(c) for c in X])), got, rep))
+
+
 def replay(ctx, data):
     """re-run one recorded failing input on the implementation (and, through the correspondence, on the model)"""
     warnings.simplefilter('ignore')
     inp = data.get('input', {})
     ctx.log('replaying', data.get('key'))
     ctx.ensure_static()
-    cases = {k: [] for k in ('enforce', 'enforce_eig', 'condense', 'condense_eig', 'penalize', 'expand', 'expand_eig', 'positions', 'mpc', 'tuple', 'enforce_g', 'penalize_g')}
+    cases = {k: [] for k in ('enforce', 'enforce_eig', 'condense', 'condense_eig', 'penalize', 'expand', 'expand_eig', 'positions', 'mpc', 'tuple', 'enforce_g', 'penalize_g', 'solve')}
     state = {'maxdisc': 0.0, 'pen_maxdisc': 0.0, 'eig_maxdisc': 0.0}
     which = 'D' if 'D' in inp else 'I'
     if inp.get('fn') == 'enforce':
